@@ -1,8 +1,14 @@
 use std::collections::HashMap;
 use std::collections::HashSet;
 use std::ops::Range;
+#[cfg(not(locustdb_verif))]
 use std::sync::atomic::{AtomicBool, AtomicUsize, Ordering};
+#[cfg(locustdb_verif)]
+use locustdb_simrt::sync::atomic::{AtomicBool, AtomicUsize, Ordering};
+#[cfg(not(locustdb_verif))]
 use std::sync::{Arc, Mutex, MutexGuard, RwLock};
+#[cfg(locustdb_verif)]
+use locustdb_simrt::sync::{Arc, Mutex, MutexGuard, RwLock};
 
 use crate::disk_store::*;
 use crate::ingest::buffer::Buffer;
